@@ -12,7 +12,8 @@
    Null/bool/array/float values are not modelled (the generator never produces them).
 
    The model is parameterised by a `variant`: `pinned` is the code as found (commit 0b40015),
-   `fixed` is the code after fixes/C26-1.patch (see docs/notes/C26.md).
+   `fixed` is the code after fixes/C26-1.patch (registered mode name) and fixes/C26-2.patch
+   (no nested remove); see docs/notes/C26.md.
    No proofs in this file. *)
 From Coq Require Import List ZArith String Ascii Bool.
 Import ListNotations.
